@@ -36,6 +36,41 @@ def _fill(tmpl: str) -> str:
     return tmpl.format(initial_version="2026.1001-alpha", default_tag_scope="default")
 
 
+def logging_setup_rule(ctx, rule: str) -> None:
+    """cli._configure_logging is the first call of every command (init included): what reaches `logging.basicConfig(level=...)`
+    is a level of the logging module on every path, what reaches `format=` / `datefmt=` is a text.  (Under pytest the root logger
+    already has handlers and basicConfig does nothing, so no test sees a swapped pair.)"""
+    prog = ctx.prog
+    fn = prog.function("cli._configure_logging")
+    ctx.visit(fn.fq)
+    calls = [c for c in walk_no_nested(fn.node) if isinstance(c, ast.Call) and unparse(c.func) == "logging.basicConfig"]
+    ctx.floor(rule, "logging.basicConfig calls in cli._configure_logging", len(calls), 1)
+
+    def kinds(e: ast.AST, depth: int = 3) -> T.Set[str]:
+        if isinstance(e, ast.Constant):
+            return {"text" if isinstance(e.value, str) else "number" if isinstance(e.value, int) and not isinstance(e.value, bool) else "other"}
+        if isinstance(e, ast.JoinedStr):
+            return {"text"}
+        if isinstance(e, ast.Attribute) and unparse(e.value) == "logging" and e.attr.isupper():
+            return {"level"}
+        if isinstance(e, ast.IfExp):
+            return kinds(e.body, depth) | kinds(e.orelse, depth)
+        if isinstance(e, ast.Name) and depth > 0:
+            defs = [v for _st, v in shapes.local_defs(fn, e.id) if v is not None]
+            return set().union(*[kinds(d, depth - 1) for d in defs]) if defs else {"unknown"}
+        return {"unknown"}
+    for c in calls:
+        kw = shapes.kwargs_of(c)
+        for name, want in (("level", {"level", "number"}), ("format", {"text"}), ("datefmt", {"text"})):
+            if name not in kw:
+                continue
+            got = kinds(kw[name])
+            ctx.check(rule, "unknown" in got or got <= want, f"_configure_logging: basicConfig({name}=...) receives {sorted(got)}",
+                      f"cli._configure_logging: logging.basicConfig receives the wrong kind of value for `{name}`",
+                      f"`{name}={unparse(kw[name])}` is {sorted(got)}: logging raises on the first call of every command (`init` writes nothing, `update` never starts)",
+                      loc=fn.loc(c), witness={"command": "bumpver init"})
+
+
 def run(ctx) -> None:
     prog, cfgs, effects = ctx.prog, ctx.cfgs, ctx.effects
     ctx.rule("R1", "append-only write, only under (no config and not dry); dry exits 0 without writing; existing config exits 1")
@@ -50,6 +85,8 @@ def run(ctx) -> None:
     # ... and `show` reports what init wrote: a repository further up the directory tree is not this project's VCS (C11's marker rule)
     from checks.c11 import vcs_marker_rule
     vcs_marker_rule(ctx, "R5")
+    ctx.rule("R7", "every command gets past its first step: logging.basicConfig receives a logging level as level= and a text as format=")
+    logging_setup_rule(ctx, "R7")
     ctx.rule("R4", "file choice: candidates == SUPPORTED_CONFIGS; configured files first, then existing, then bumpver.toml; self-snippets cover the candidates")
 
     # ---------------------------------------------------------------- R1
